@@ -37,6 +37,24 @@ Theorem C08_lro_rejected_sound : forall files pkg m e,
 Proof. exact lro_rejected_sound. Qed.
 Print Assumptions C08_lro_rejected_sound.
 
+(* every long-running rpc is decided on its own annotation: a shared response type does not share the metadata type *)
+Theorem C08_lro_shared_response_distinct_metadata : forall files pkg m1 m2 oi1 oi2 r1 mt1 r2 mt2,
+  m_opinfo m1 = Some oi1 -> m_opinfo m2 = Some oi2 ->
+  oi_response oi1 = oi_response oi2 ->
+  decide files pkg m1 = Lro r1 mt1 -> decide files pkg m2 = Lro r2 mt2 ->
+  r1 = r2 /\
+  mt1 = resolve_lro files pkg (oi_metadata oi1) /\ mt2 = resolve_lro files pkg (oi_metadata oi2) /\
+  (resolve_lro files pkg (oi_metadata oi1) <> resolve_lro files pkg (oi_metadata oi2) -> mt1 <> mt2).
+Proof. exact lro_shared_response_distinct_metadata. Qed.
+Print Assumptions C08_lro_shared_response_distinct_metadata.
+
+Example C08_shared_response_example :
+  let files := [mkFile "a/b.proto" "a.b" [] ["a.b.Book"; "a.b.CreateMeta"; "a.b.UpdateMeta"]] in
+  decide files "a.b" (mkMethod "Create" OPERATION_TYPE (Some (mkOp "Book" "CreateMeta"))) = Lro "a.b.Book" "a.b.CreateMeta" /\
+  decide files "a.b" (mkMethod "Update" OPERATION_TYPE (Some (mkOp "Book" "UpdateMeta"))) = Lro "a.b.Book" "a.b.UpdateMeta".
+Proof. exact ex_shared_response. Qed.
+Print Assumptions C08_shared_response_example.
+
 (* a name without a dot is relative to the method's package, anything else is taken as written *)
 Theorem C08_lro_resolve_spec : forall pkg sel,
   (contains dot sel = false -> resolve pkg sel = pkg ++ "." ++ sel /\ starts_with (pkg ++ ".") (resolve pkg sel) = true) /\
